@@ -501,7 +501,8 @@ def bounded(rec):
     import pints
     import xarray as xr
     sel = [p_ for p_ in posteriors(real, 'quick') if any(t in p_[0] for t in ("('G', 1, 0), ('P', 1, 0))", "('G', 1, 0), ('H', 1, 0))", "('CG', 1, 1),)", 'LogPosterior(3 parameters, id set)', "(('Gn', 2, 0),), 2"))]
-    cases = [('optimisation', k) for k in range(len(sel))] + [('sampling.run', k) for k in range(len(sel))] + [('read.back', 0), ('read.back', 1), ('read.back', 2), ('read.back', 3), ('read.back', 4)]
+    cases = [('controller.start', k) for k in range(len(sel))] + [('optimisation', k) for k in range(len(sel))] + [('sampling.run', k) for k in range(len(sel))] + [('read.back', 0), ('read.back', 1), ('read.back', 2), ('read.back', 3), ('read.back', 4),
+                                                                                                          ('read.back', 5), ('read.back', 6)]
 
     def one(case):
         kind, k = case
@@ -510,7 +511,10 @@ def bounded(rec):
             ctrl = real.OptimisationController(post, seed=2)
             ctrl.set_n_runs(2)
             ctrl.set_parallel_evaluation(False)
-            df = ctrl.run(n_max_iterations=15)
+            try:
+                df = ctrl.run(n_max_iterations=15)
+            except Exception as ex:
+                return '%s: OptimisationController(seed=2).run raises %r' % (label, ex)
             names = list(post.get_parameter_names())
             ids = post.get_id()
             ids = list(ids) if isinstance(ids, (list, tuple)) else [ids] * len(names)
@@ -525,6 +529,23 @@ def bounded(rec):
                 if len(set(part['Score'])) != 1 or not np.isclose(post(x), score, rtol=1e-9, atol=1e-9):
                     return '%s: run %d: the estimates put back in the published order give a log-posterior of %.8g, the table reports the score %.8g' % (label, run, post(x), score)
             return None
+        if kind == 'controller.start':
+            # the points a run starts from are the posterior's seeded initial points, also after the number of runs is changed
+            label, post = sel[k]
+            for cls in (real.OptimisationController, real.SamplingController):
+                for n_runs in (None, 3, 1):
+                    starts = []
+                    for rep in range(2):
+                        np.random.seed(100 + rep)          # the global generator state must not matter
+                        ctrl = cls(post, seed=7)
+                        if n_runs is not None:
+                            ctrl.set_n_runs(n_runs)
+                        starts.append(np.array(ctrl._initial_params, copy=True))
+                    want = post.sample_initial_parameters(n_samples=n_runs or 5, seed=7)
+                    if starts[0].shape != want.shape or not np.array_equal(starts[0], starts[1]) or not np.allclose(starts[0], want):
+                        return '%s: %s(seed=7)%s starts from %s / %s, the posterior\'s seeded initial points are %s' % (label, cls.__name__, '' if n_runs is None else '.set_n_runs(%d)' % n_runs,
+                                                                                                                     np.round(starts[0][0], 4).tolist(), np.round(starts[1][0], 4).tolist(), np.round(want[0], 4).tolist())
+            return None
         if kind == 'sampling.run':
             label, post = sel[k]
             ctrl = real.SamplingController(post, seed=3)
@@ -537,7 +558,10 @@ def bounded(rec):
                 seen['chains'] = np.array(chains, copy=True)
                 return orig(chains, divergent)
             ctrl._format_chains = spy
-            ds = ctrl.run(n_iterations=25)
+            try:
+                ds = ctrl.run(n_iterations=25)
+            except Exception as ex:
+                return '%s: SamplingController(seed=3).run raises %r' % (label, ex)
             raw = seen['chains']
             names = list(post.get_parameter_names())
             if raw.shape != (2, 25, len(names)):
@@ -566,6 +590,19 @@ def bounded(rec):
         tag = np.arange(2 * 3 * 3, dtype=float).reshape(2, 3, 3)
         ds = xr.Dataset({names[0]: (('chain', 'draw', 'individual'), 0.1 * tag), names[1]: (('chain', 'draw', 'individual'), 100 + tag), names[2]: (('chain', 'draw'), 1.0 + 0.01 * tag[:, :, 0]),
                          'unrelated': (('chain', 'draw'), -tag[:, :, 0])}, coords={'chain': [0, 1], 'draw': [0, 1, 2], 'individual': inds})
+        if k in (5, 6):
+            # square datasets (as many draws as chains): orientation must come from the dimension names, not from the shape
+            nsq = 3 if k == 5 else 2
+            tsq = np.arange(nsq * nsq * 3, dtype=float).reshape(nsq, nsq, 3)
+            dsq = xr.Dataset({names[0]: (('chain', 'draw', 'individual'), 0.1 * tsq), names[1]: (('chain', 'draw', 'individual'), 100 + tsq), names[2]: (('chain', 'draw'), 1.0 + 0.01 * tsq[:, :, 0])},
+                             coords={'chain': list(range(nsq)), 'draw': list(range(nsq)), 'individual': inds})
+            pw = real.compute_pointwise_loglikelihood(ll, dsq, individual='b')
+            for c, d in itertools.product(range(nsq), range(nsq)):
+                x = [0.1 * tsq[c, d, 1], 100 + tsq[c, d, 1], 1.0 + 0.01 * tsq[c, d, 0]]
+                want = ll.compute_pointwise_ll(x)
+                if not np.allclose(pw.values[c, d], want):
+                    return 'compute_pointwise_loglikelihood on a %d x %d dataset: chain %d draw %d evaluates %s, the columns of individual b at that draw give %s' % (nsq, nsq, c, d, pw.values[c, d].tolist(), np.asarray(want).tolist())
+            return None
         if k == 0:
             pw = real.compute_pointwise_loglikelihood(ll, ds, individual='b')
             for c, d in itertools.product(range(2), range(3)):
